@@ -504,7 +504,22 @@ def rule_h(ctx, ix):
             pc = cond.path_condition(f.node, st, expand=False) or ('const', True)
             if isinstance(st.value, ast.Name) and st.value.id == var and not any('BLANK' in a for a in cond.atoms(pc)):
                 good.append(st)
-        other = [c for c in calls_in(f.node) if any(isinstance(a, ast.Constant) and a.value == 'BLANK' for a in c.args) and c not in soft]
+        # other spellings of the unconditional store: header.set('BLANK', v), header.update(BLANK=v), header.update({'BLANK': v})
+        for c in calls_in(f.node):
+            pc = cond.path_condition(f.node, c, expand=False) or ('const', True)
+            if any('BLANK' in a for a in cond.atoms(pc)):
+                continue
+            if call_name(c) == 'set' and len(c.args) >= 2 and isinstance(c.args[0], ast.Constant) and c.args[0].value == 'BLANK' \
+                    and isinstance(c.args[1], ast.Name) and c.args[1].id == var:
+                good.append(c)
+            if call_name(c) == 'update':
+                if any(k.arg == 'BLANK' and isinstance(k.value, ast.Name) and k.value.id == var for k in c.keywords):
+                    good.append(c)
+                for a in c.args:
+                    if isinstance(a, ast.Dict) and any(isinstance(k_, ast.Constant) and k_.value == 'BLANK' and isinstance(v_, ast.Name) and v_.id == var
+                                                      for k_, v_ in zip(a.keys, a.values)):
+                        good.append(c)
+        other = [c for c in calls_in(f.node) if any(isinstance(a, ast.Constant) and a.value == 'BLANK' for a in c.args) and c not in soft and c not in good]
         ctx.idiom(R, '%s `%s`' % (f.construct, norm(fill)), 'header[\'BLANK\'] = %s, whatever the header held before' % var,
                   accepted=bool(good), absent=not good and not other,
                   detail_absent='fits_writer fills the masked integer pixels with `%s` but %s: when the header already has a BLANK (the shared '
